@@ -59,10 +59,27 @@ def items(tier, seed):
             + skel.skeletons(4, 2, 4, 2, max_positions=7, outputs="unordered")
         )
         chunk = 10
-    return [
+    its = [
         {"skeletons": [[list(a), b] for a, b in sk[i : i + chunk]], "tier": tier, "k": i}
         for i in range(0, len(sk), chunk)
     ]
+    # a few 4-tensor networks in every tier (k-ary construction steps need N >= 4)
+    for j, s4 in enumerate(FIXED4):
+        its.append({"skeletons": [[list(s4[0]), s4[1]]], "tier": tier, "k": 100000 + j, "fixed4": True})
+    return its
+
+
+FIXED4 = [
+    (("aab", "ac", "ad", "b"), ""),
+    (("aab", "abc", "cd", "d"), ""),
+    (("aa", "ab", "bc", "cd"), "d"),
+    (("ab", "bc", "cd", "da"), ""),
+    (("abx", "bx", "cx", "ac"), "x"),
+]
+
+
+def _unused():
+    return None
 
 
 class SymOrder:
@@ -108,10 +125,36 @@ def ones_patterns(labels, tier, salt=0):
     return pats
 
 
-def make_tree(inputs, output, size, ssa, cfg, variant):
+def ssa_to_lin(ssa, n):
+    ids = list(range(n))
+    out = []
+    nxt = n
+    for con in ssa:
+        pos = sorted(ids.index(c) for c in con)
+        out.append(tuple(pos))
+        for p_ in reversed(pos):
+            ids.pop(p_)
+        ids.append(nxt)
+        nxt += 1
+    return out
+
+
+def make_tree(inputs, output, size, ssa, cfg, variant, build="ssa"):
     from cotengra.core import ContractionTree
 
-    tree = ContractionTree.from_path(inputs, output, size, ssa_path=ssa)
+    n = len(inputs)
+    if build == "multi" and n >= 3:
+        # the same tree, but built through the multi-node route: one n-ary step whose inner
+        # order is supplied as an explicit path (legs of the group are asked for before it has children)
+        tree = ContractionTree.from_path(inputs, output, size, path=[tuple(range(n))], optimize=ssa_to_lin(ssa, n))
+    elif build == "multi3" and n >= 4:
+        # a 3-ary first step inside a larger network: the group's legs are computed before it has children
+        inner = ssa_to_lin([p_ for p_ in ssa if max(p_) < n + 1][:2], 3) if False else [(0, 1), (0, 1)]
+        tree = ContractionTree.from_path(inputs, output, size, path=[(0, 1, 2)] + [(0, 1)] * (n - 3), optimize=inner)
+    elif build == "auto" and n >= 3:
+        tree = ContractionTree.from_path(inputs, output, size, path=[], autocomplete=True, optimize=ssa_to_lin(ssa, n))
+    else:
+        tree = ContractionTree.from_path(inputs, output, size, ssa_path=ssa)
     if variant == 1 and not cfg:
         # separate getters first (each has its own from-scratch loop)
         tree.total_flops()
@@ -134,17 +177,23 @@ def run_item(item, rec):
         labels = skel.all_labels(inputs)
         trees = skel.all_trees(n)
         cfgs = slice_configs(labels, tier, n)
+        if item.get("fixed4") and tier == "quick":
+            trees = trees[:3]
+            cfgs = cfgs[:1] + cfgs[1::4]
         for ones in ones_patterns(labels, tier, len(inputs[0]) + len(output) + sum(map(len, inputs))):
             for ti, ssa in enumerate(trees):
                 for ci, cfg in enumerate(cfgs):
                     variant = (ti + ci) % 2
                     use_sym_order = n >= 4 or (ci % 3 == 0)
+                    build = ["ssa", "multi", "ssa", "auto"][(ti + 2 * ci) % 4] if n >= 3 else "ssa"
+                    if n >= 4 and ti == 0:
+                        build = "multi3"
                     case = dict(inputs=list(inputs), output=output, ones=list(ones), ssa=[list(p) for p in ssa],
-                                cfg=[list(x) for x in cfg], variant=variant)
+                                cfg=[list(x) for x in cfg], variant=variant, build=build)
 
-                    def harness(ctx, cfg=cfg, ssa=ssa, ones=ones, variant=variant, case=case, use_sym_order=use_sym_order):
+                    def harness(ctx, cfg=cfg, ssa=ssa, ones=ones, variant=variant, case=case, use_sym_order=use_sym_order, build=build):
                         size = {c: (1 if c in ones else symx.sym_int("d_" + c, 2)) for c in labels}
-                        tree = make_tree(inputs, output, size, ssa, cfg, variant)
+                        tree = make_tree(inputs, output, size, ssa, cfg, variant, build)
                         st = tree.contract_stats()
                         tf, tw, ms = tree.total_flops(), tree.total_write(), tree.max_size()
                         order = SymOrder() if use_sym_order else None
@@ -241,8 +290,8 @@ def run_item(item, rec):
         rec.validated += validate_concrete(inputs, output, labels, trees[-1], cfgs[-1])
 
 
-def concrete_stats(inputs, output, size, ssa, cfg, variant, order=None):
-    tree = make_tree(inputs, output, size, ssa, cfg, variant)
+def concrete_stats(inputs, output, size, ssa, cfg, variant, order=None, build="ssa"):
+    tree = make_tree(inputs, output, size, ssa, cfg, variant, build)
     st = tree.contract_stats()
     steps = list(tree.traverse(order))
     sliced = [ix for ix, m in cfg if m == "s"]
@@ -274,7 +323,7 @@ def replay(v):
         keys = {frozenset(nd): k for nd, k in v["order_keys"]}
         order = lambda node: keys.get(node, 0)  # noqa
     if v["label"].startswith("stats"):
-        got, want, per = concrete_stats(inputs, output, size, ssa, cfg, case["variant"], order)
+        got, want, per = concrete_stats(inputs, output, size, ssa, cfg, case["variant"], order, case.get("build", "ssa"))
         want = {k: (z3.simplify(x).as_long() if z3.is_expr(x) else x) for k, x in want.items()}
         if got != want:
             return True, f"reported {got} != definition {want}"
@@ -287,7 +336,7 @@ def replay(v):
     # part (b): run with real numpy arrays and record shapes
     import numpy as np
 
-    tree = make_tree(inputs, output, size, ssa, cfg, case["variant"])
+    tree = make_tree(inputs, output, size, ssa, cfg, case["variant"], case.get("build", "ssa"))
     seen = []
 
     def rec_einsum(eq, *ops):
